@@ -1281,6 +1281,9 @@ func (h *history) checkpoint(nq int) {
 	if multi {
 		c.Count("layout:multi-segment-chunk")
 	}
+	if keyTwiceIn(lay, -1<<30, 1<<30) {
+		c.Count("layout:key-in-two-containers")
+	}
 	bs := h.boundaries(lay)
 	// the plain select over everything, once per layout
 	fullAns, full := h.rawRows(-5, h.nTimes+5, "", "", 0)
@@ -1349,9 +1352,11 @@ func (h *history) checkpoint(nq int) {
 			msg = "malformed answer: " + ans
 		}
 		if msg != "" {
-			if q.eligible() && h.xgen {
+			if q.eligible() && keyTwiceIn(lay, q.lo, q.hi) {
 				// the property's own exclusion: without the hint, a (series,time) written in two
-				// flush generations may be counted twice. Not a violation; counted.
+				// flush generations - and still held by two containers, inside the range - may be
+				// counted twice (theorem aggViaStats_eq_aggRows_partial has exactly this
+				// hypothesis). Not a violation; counted. The model diff is exact there too.
 				c.Count("excluded:cross-generation-unhinted")
 				continue
 			}
@@ -1359,6 +1364,38 @@ func (h *history) checkpoint(nq int) {
 			h.writeReplay(line, q)
 		}
 	}
+}
+
+// keyTwiceIn: some series has a timestamp of [lo,hi] in two containers (memtable, files).
+func keyTwiceIn(lay *layout, lo, hi int) bool {
+	seen := map[key]bool{}
+	for s, rs := range lay.mem {
+		for _, r := range rs {
+			if r.t >= lo && r.t <= hi {
+				seen[key{s, r.t}] = true
+			}
+		}
+	}
+	for _, f := range lay.files {
+		cur := map[key]bool{}
+		for _, ch := range f.chunks {
+			for _, seg := range ch.segs {
+				for _, r := range seg {
+					if r.t < lo || r.t > hi {
+						continue
+					}
+					if seen[key{ch.s, r.t}] {
+						return true
+					}
+					cur[key{ch.s, r.t}] = true
+				}
+			}
+		}
+		for k := range cur {
+			seen[k] = true
+		}
+	}
+	return false
 }
 
 // writeReplay stores the history so far and the failing query as a replay file
@@ -1514,7 +1551,7 @@ func runReplay(c *hx.Ctx, path string) error {
 				msg = "malformed answer: " + ans
 			}
 			if msg != "" {
-				if q.eligible() && h.xgen {
+				if q.eligible() && keyTwiceIn(lay, q.lo, q.hi) {
 					c.Count("excluded:cross-generation-unhinted")
 					continue
 				}
@@ -1561,6 +1598,9 @@ func runHistory(c *hx.Ctx, r *hx.Rng, idx int) error {
 	defer os.RemoveAll(dir)
 	h := &history{c: c, r: r, idx: idx, mem: map[key]*row{}, gen: map[key]int{}}
 	h.seg = []int{8, 8, 8, 16, 24}[r.Intn(5)] // multiples of 8: other limits crash the out-of-order merge (bitmap offset)
+	if v := c.Arg("seg", ""); v != "" { // rows-per-segment override (debugging)
+		h.seg, _ = strconv.Atoi(v)
+	}
 	h.nSeries = 2 + r.Intn(3)
 	h.nTimes = h.seg * (3 + r.Intn(4))
 	big := c.Tier == "thorough" && r.Chance(3)
